@@ -33,9 +33,15 @@ pub enum PK {
     USqrt,
     /// unsigned source, signed destination: sqrt and powi
     UI,
+    /// a type OUTSIDE the properties' scope (fewer than 23 fraction bits): never judged, only called as part of the
+    /// history before a judged call (sqrt log2 sin cos tan) — what it returns or whether it panics is not asserted
+    Prime,
 }
 
-pub const NPAIRS: usize = 246;
+/// pairs including the history-only ones (indices NPAIRS..NALL)
+pub const NALL: usize = 276;
+
+pub const NPAIRS: usize = 270;
 
 macro_rules! pairs {
     ($( $i:literal : $S:ident => $D:ident , $k:ident ; )*) => {
@@ -56,6 +62,7 @@ macro_rules! pairs {
     (@call Cross, $S:ident, $D:ident, $st:ident, $op:ident, $a:ident, $b:ident, $outs:ident) => { run_cross::<$S, $D>($st, $op, $a, $b, $outs) };
     (@call USqrt, $S:ident, $D:ident, $st:ident, $op:ident, $a:ident, $b:ident, $outs:ident) => { run_usqrt::<$S, $D>($st, $op, $a, $outs) };
     (@call UI, $S:ident, $D:ident, $st:ident, $op:ident, $a:ident, $b:ident, $outs:ident) => { run_ui::<$S, $D>($st, $op, $a, $b, $outs) };
+    (@call Prime, $S:ident, $D:ident, $st:ident, $op:ident, $a:ident, $b:ident, $outs:ident) => { run_prime::<$D>($st, $op, $a, $outs) };
 }
 
 pairs! {
@@ -308,6 +315,42 @@ pairs! {
     243: U9F23 => I64F64, UI;
     244: U32F32 => I96F32, UI;
     245: U33F31 => I34F94, UI;
+    // the smallest positive source value's reciprocal (2^S.frac) straddles the destination's maximum (2^(D.int-1)): D.int = S.frac + {0, 1, 2}
+    246: I9F23 => I23F41, Cross;
+    247: I9F23 => I23F105, Cross;
+    248: I9F23 => I24F40, Cross;
+    249: I9F23 => I24F104, Cross;
+    250: I9F23 => I25F39, Cross;
+    251: I9F23 => I25F103, Cross;
+    252: I32F32 => I32F96, Cross;
+    253: I32F32 => I33F95, Cross;
+    254: I32F32 => I34F94, Cross;
+    255: I31F33 => I33F95, Cross;
+    256: I31F33 => I34F94, Cross;
+    257: I31F33 => I35F93, Cross;
+    258: I24F40 => I40F88, Cross;
+    259: I24F40 => I41F87, Cross;
+    260: I24F40 => I42F86, Cross;
+    261: I23F41 => I41F87, Cross;
+    262: I23F41 => I42F86, Cross;
+    263: I23F41 => I43F85, Cross;
+    264: I16F48 => I48F80, Cross;
+    265: I16F48 => I49F79, Cross;
+    266: I16F48 => I50F78, Cross;
+    267: I9F55 => I55F73, Cross;
+    268: I9F55 => I56F72, Cross;
+    269: I9F55 => I57F71, Cross;
+    270: I16F16 => I16F16, Prime;
+    271: I24F8 => I24F8, Prime;
+    272: I48F16 => I48F16, Prime;
+    273: I12F20 => I12F20, Prime;
+    274: I112F16 => I112F16, Prime;
+    275: I10F6 => I10F6, Prime;
+}
+
+/// functions a history-only pair can be called with
+pub fn primer_accepts(pk: PK, op: u16) -> bool {
+    pk == PK::Prime && matches!(op, SQRT | LOG2 | SIN | COS | TAN)
 }
 
 pub fn accepts(pk: PK, op: u16) -> bool {
@@ -316,6 +359,7 @@ pub fn accepts(pk: PK, op: u16) -> bool {
         PK::Cross => op <= POWI,
         PK::USqrt => op == SQRT,
         PK::UI => op == SQRT || op == POWI,
+        PK::Prime => false,
     }
 }
 
@@ -365,6 +409,22 @@ where
         _ => return run_cross::<T, T>(st, op, a, b, outs),
     }
     step!(st, outs, 1, "iters", Out::V(verif_hook::read() as u128));
+}
+
+fn run_prime<T>(st: usize, op: u16, a: u128, outs: &mut Outs)
+where
+    T: VF + FixedSigned + PartialOrd<I9F23> + LossyFrom<I9F23> + LossyFrom<I9F55> + LossyFrom<U0F128>,
+    <T as Fixed>::Bits: Copy + ToFixed + AddAssign + BitOrAssign + ShlAssign,
+{
+    let x = T::from_raw(a);
+    match op {
+        SIN => step!(st, outs, 0, "result", Out::V(tr::sin(x).raw())),
+        COS => step!(st, outs, 0, "result", Out::V(tr::cos(x).raw())),
+        TAN => step!(st, outs, 0, "result", Out::V(tr::tan(x).raw())),
+        SQRT => step!(st, outs, 0, "result", r(tr::sqrt::<T, T>(x))),
+        LOG2 => step!(st, outs, 0, "result", r(tr::log2::<T, T>(x))),
+        _ => {}
+    }
 }
 
 fn run_usqrt<S, D>(st: usize, op: u16, a: u128, outs: &mut Outs)
